@@ -670,11 +670,12 @@ def c02(ctx, replay):
 def c18(ctx, replay):
     rec, _ = ctx.tlc("WSNetConn", "WSNetConn.cfg", name="netconn-adapter-model")
     ctx.count_model(rec)
-    # how a deadline expires: the callback goroutine against SetDeadline (strict design + the two pre-fix behaviours)
+    # how a deadline expires: the callback goroutine against SetDeadline and against a call that starts after the deadline has
+    # passed (strict design + the three pre-fix behaviours)
     rec, _ = ctx.tlc("WSDeadline", "WSDeadline.cfg", workers=2, name="deadline-expiry-vs-reset")
     ctx.count_model(rec)
     caught = {}
-    for d in ("stale", "nomutex"):
+    for d in ("stale", "nomutex", "noentrycheck"):
         rec, out = ctx.tlc("WSDeadline", "WSDeadline.dev-%s.cfg" % d, workers=2, expect_ok=False, name="deadline-expiry-dev-" + d)
         caught[d] = "is violated" in out
         if not caught[d]:
